@@ -38,8 +38,9 @@ impl RngCore for ThreadRng {
 pub fn install(draws: &[u64]) {
     unsafe {
         let mut i = 0;
-        while i < draws.len() && i < MAX_DRAWS {
-            DRAWS[i] = draws[i];
+        // the installed values repeat cyclically over the whole buffer
+        while i < MAX_DRAWS {
+            DRAWS[i] = if draws.is_empty() { 0 } else { draws[i % draws.len()] };
             i += 1;
         }
         POPS = 0;
